@@ -17,8 +17,9 @@ following each resource-level `With…` function of `opt.go`:
   `WithMessageEquivalence` / `WithNoDuplicates` (consulted by Pull only — never by Get/List/Set/Add/Update/
   Delete: no definition of `Model.lean` has such a parameter) and `EmptyOption` are `other`.
 
-A Value ignores initial records and the id interceptor, a Collection ignores the initial value.  The
-ids of initial records are stored AS GIVEN (the id interceptor is not applied to them).
+A Value ignores initial records and the id interceptor, a Collection ignores the initial value.
+`NewCollection` keeps an initial record under the id interceptor's image of its id (repo 215ba16; before,
+under the id as given: unreachable for Get/Update/Delete when the interceptor rewrites that id).
 -/
 namespace ScVerif.C01
 variable {M K R : Type}
@@ -69,8 +70,28 @@ def toCfg (base : Cfg M K R) (rc : ResCfg M K) : Cfg M K R :=
 def Value.newO (base : Cfg M K R) (opts : List (ResOpt M K)) : Option (Cfg M K R × VState M) :=
   (computeConfig opts).map fun rc => (toCfg base rc, Value.init (toCfg base rc) rc.initialValue)
 
-/-- `NewCollection(opts...)` -/
+/-- does a record list hold two records with one id -/
+def hasDupKey : List (String × M) → Bool
+  | [] => false
+  | kv :: rest => rest.any (fun x => x.1 == kv.1) || hasDupKey rest
+
+/-- the initial records under the keys `NewCollection` keeps them under: the id interceptor's image of the
+id given (repo 215ba16), as every entry point resolves the ids it is handed -/
+def keyedRecords (cfg : Cfg M K R) (records : List (String × M)) : List (String × M) :=
+  records.map (fun kv => (icptId cfg kv.1, kv.2))
+
+/-- `NewCollection(opts...)`: the records go into `byId` under their intercepted ids; two records the
+interceptor maps to one id panic (`none`), like a repeated `WithInitialRecord` id.  (`initialRecords` is a
+Go map: with distinct keys the iteration order does not matter.) -/
 def Coll.newO (base : Cfg M K R) (opts : List (ResOpt M K)) (rng : R) : Option (Cfg M K R × CState M R) :=
+  (computeConfig opts).bind fun rc =>
+    let cfg := toCfg base rc
+    if hasDupKey (keyedRecords cfg rc.initialRecords) then none
+    else some (cfg, Coll.init cfg (keyedRecords cfg rc.initialRecords) rng)
+
+/-- `NewCollection` before repo 215ba16: the records were kept under the ids as given, whatever the id
+interceptor (kept for the witness `C01_initial_records_legacy_unreachable`) -/
+def Coll.newOLegacy (base : Cfg M K R) (opts : List (ResOpt M K)) (rng : R) : Option (Cfg M K R × CState M R) :=
   (computeConfig opts).map fun rc => (toCfg base rc, Coll.init (toCfg base rc) rc.initialRecords rng)
 
 /-- the initial records of an option list, in the order given -/
